@@ -217,6 +217,43 @@ theorem raw_write_footprint (port : Port) (address length : Int) (buf : Bytes) (
   · right; exact ⟨by simp, rfl, rfl⟩
   · left; exact ⟨rfl, hl, rfl, rfl, rfl, rfl⟩
 
+/-- **raw_roundtrip**: on a plain port and an answering device, writing a buffer of exactly
+the register length through `IRegister::write` and reading the register back through
+`IRegister::read` returns that buffer; the two calls perform exactly one device write and
+one device read of `[address, address+length)` and no byte outside that range changes. -/
+theorem raw_roundtrip (port : Port) (hp : port.hasChunkId = false) (address length : Int)
+    (buf : Bytes) (hlen : buf.length = asUsize length) (d : Dev) (hd : d.Reliable) :
+    ∃ d1 d2, Register.write port address length buf d = (.ok (), d1) ∧
+      Register.read port address length buf.length d1 = (.ok buf, d2) ∧
+      d2.log = d.log ++ [⟨.write, address, buf.length, buf⟩, ⟨.read, address, buf.length, buf⟩] ∧
+      d2.mem = d.mem.writeRange address buf ∧
+      (∀ x, x < address ∨ address + (buf.length : Int) ≤ x → d2.mem x = d.mem x) := by
+  have hmem : (afterWrite d address buf).mem.readRange address buf.length = buf :=
+    readRange_writeRange d.mem address buf
+  refine ⟨afterWrite d address buf, afterRead (afterWrite d address buf) address buf.length,
+    ?_, ?_, ?_, rfl, ?_⟩
+  · unfold Register.write
+    rcases writeAndCache_cases port address length buf d with
+      ⟨h, _⟩ | ⟨_, h, _⟩ | ⟨_, _, h, _⟩ | ⟨_, _, _, h⟩
+    · exact absurd hlen h
+    · rw [hp] at h; cases h
+    · rw [hd] at h; cases h
+    · exact h
+  · unfold Register.read
+    rcases readAndCache_cases port address length buf.length (afterWrite d address buf) with
+      ⟨h, _⟩ | ⟨_, h, _⟩ | ⟨_, _, h, _⟩ | ⟨_, _, _, h⟩
+    · exact absurd hlen h
+    · rw [hp] at h; cases h
+    · have := hd (afterWrite d address buf).attempts
+      simp only [afterWrite] at h this; rw [this] at h; cases h
+    · rw [h, hmem]
+  · simp only [afterRead, hmem]
+    simp [afterWrite]
+  · intro x hx
+    exact writeRange_outside d.mem address buf x hx
+
+example : ([1, 2, 3] : Bytes).length = asUsize 3 := by decide
+
 /-- **footprint (IntReg.value)**: a successful `value()` is exactly one device read of
 `[address, address+n)`, the result is the value those bytes denote, memory is unchanged. -/
 theorem int_value_footprint (port : Port) (e : Endianness) (s : Sign) (address : Int) (n : Nat)
